@@ -307,6 +307,7 @@ InvTags(Sold, S2) ==
   \cup (IF OneActiveKeyset(S2) \/ ~OneActiveKeyset(Sold) THEN {} ELSE {<<"C09", "not-exactly-one-active-keyset">>})
 
 StateFromInit(e) ==
-  InitState([k \in DOMAIN e.post.ks |-> [fee |-> e.post.ks[k].fee, active |-> e.post.ks[k].active]], e.a.limits)
+  [InitState([k \in DOMAIN e.post.ks |-> [fee |-> e.post.ks[k].fee, active |-> e.post.ks[k].active]], e.a.limits)
+     EXCEPT !.mpp = e.a.mpp]
 
 =============================================================================
